@@ -176,7 +176,8 @@ class NameGen:
 def gen_mll_script(rng, stats):
     g = NameGen(rng)
     o = g.olen
-    s = ["open w", "base %s 3 3" % hx(b"Base"), "zone %s 1 s 3" % hx(b"Z1"), "zone %s 1 u 8" % hx(b"Z2"), "close", "open m"]
+    s = ["open w", "base %s 3 3" % hx(b"Base"), "zone %s 1 s 3" % hx(b"Z1"), "zone %s 1 u 8" % hx(b"Z2"),
+         "base %s 2 2" % hx(b"Base2D"), "zone2 %s 2 4" % hx(b"ZA"), "zone2 %s 2 4" % hx(b"ZB"), "close", "open m"]
     for _ in range(rng.randint(2, 4)):
         s.append("coord_write 1 1 %d %s" % (rng.choice([3, 4]), g.name()))
     good = g.name(force="trail", maxcore=20)
@@ -206,6 +207,11 @@ def gen_mll_script(rng, stats):
     s += ["1to1_write 1 1 %s %s" % (g.name(), hx(b"Z1  ")), "1to1_write 1 1 %s %s" % (g.name(), g.name()),
           "1to1_read 1 1 1 %d %d" % (o(), o()), "1to1_read 1 1 2 %d %d" % (o(), o()), "n1to1_global 1",
           "1to1_read_global 1 %d" % rng.choice([2, 2, 3])]
+    # a 2-D base with several interfaces: INTEGER range(4,N), donor_range(4,N), transform(2,N) packing of the global reader
+    n2 = rng.choice([2, 3, 3, 4])
+    for k in range(n2):
+        s.append("1to1_write2 2 %d %s %s %d" % (1 + k % 2, g.name(), hx(b"ZB" if k % 2 == 0 else b"ZA"), rng.randint(0, 11)))
+    s += ["n1to1_global 2", "1to1_read_global 2 %d" % (n2 + rng.choice([0, 0, 1]))]
     s += ["hole_write 1 1 %s" % g.name(), "hole_info 1 1 1 %d" % o()]
     s += ["biter_write 1 %s 3" % g.name(), "biter_read 1 %d" % o(), "ziter_write 1 1 %s" % g.name(), "ziter_read 1 1 %d" % o()]
     s += ["rigid_write 1 1 %s 2" % g.name(), "rigid_read 1 1 1 %d" % o(), "arb_write 1 1 %s 2" % g.name(), "arb_read 1 1 1 %d" % o()]
